@@ -11,13 +11,15 @@ CLAIM = {
          "clock advances are symbolic milliseconds. On every path: each task's steps execute in program order exactly once and never re-entrantly, a "
          "sleeping / timed-waiting task is resumed exactly once and not before its time, a Select wake-up delivers exactly the ready fds, one-shot and "
          "recurring timers fire at >= their times until cancelled, a raising task is descheduled without affecting the other, and at quiescence "
-         "every task that could run has finished.",
+         "every task that could run has finished. Nested task_function / Again sub-task chains (depth <= 3, thorough 4; symbolic return / raise / "
+         "fall-through per level, extra blocking calls around the sub-call, two concurrent callers) produce exactly the call/return log of ordinary "
+         "calls: a sub-task's result or exception reaches exactly its caller.",
  'note': "Trusted: CPython, z3, symx proxies, the stub select/clock/pinger (props/C06.py, props/env.py). The threaded select hub, CallBlocking and the "
          "epoll variant need real threads/fds and are outside the claim; integer millisecond clock.",
 }
 EXPLANATION = ("Real Scheduler.cycle/schedule/fast_schedule, BaseTask.execute, Task.run, Sleep/Select/DummyOp.execute, SelectHub._select/"
                "registerSelect/registerTimer/_return (threaded=False) and Timer executed with symbolic times; execution trace assertions decided by z3.")
-FUNCTIONS = ["pox.lib.recoco.recoco.Scheduler.cycle/schedule/fast_schedule/quit", "BaseTask.execute/start", "Task.run", "Sleep/Select/DummyOp/Exit.execute",
+FUNCTIONS = ["pox.lib.recoco.recoco.Again.execute/AgainTask.run_again/task_function", "pox.lib.recoco.recoco.Scheduler.cycle/schedule/fast_schedule/quit", "BaseTask.execute/start", "Task.run", "Sleep/Select/DummyOp/Exit.execute",
              "SelectHub._select/idle/break_idle/registerSelect/registerTimer/_return/_cycle (inline)", "Timer.run/cancel/start"]
 BOUNDS = {}
 OUTSIDE = ["the threaded select hub, CallBlocking, Synchronizer (real threads)", "EpollSelect", "more than 2 tasks x 3 yields", "float clocks"]
@@ -201,6 +203,84 @@ def h_timer(ctx, recurring, cancel_after):
   ctx.witness('done')
 
 
+class SubErr(Exception):
+  def __init__(self, tag): Exception.__init__(self, tag); self.tag = tag
+
+
+def h_subtasks(ctx, depth, ops, siblings=False):
+  """nested task_function / Again calls, `depth` levels below a top-level task; ops[k] says where level k makes an extra blocking call
+  ('' none, 'b' before its sub-call, 'a' after it, 'ba' both).  Each level either returns a value, raises, or falls off the end
+  (symbolic choice); each caller catches what its callee raised.  The observable log must equal ordinary call/return semantics:
+  a sub-task's result or exception reaches exactly its caller.  siblings: a second top-level task runs the same chain concurrently."""
+  R, s, clock, fs = make_sched(ctx)
+  nt = 2 if siblings else 1
+  beh = [[int(ctx.int('beh%d_%d' % (t, k), 0, 2)) for k in range(depth)] for t in range(nt)]
+  val = [[ctx.int('val%d_%d' % (t, k), 0, 1000) for k in range(depth)] for t in range(nt)]
+  logs = [[] for _ in range(nt)]
+  def level(t, k):
+    def f():
+      r = 0
+      if 'b' in ops[k]:
+        got = yield R.DummyOp(100 + k)
+        logs[t].append((k, 'op', got))
+      if k + 1 < depth:
+        try:
+          r = yield level(t, k + 1)()
+          logs[t].append((k, 'got', r))
+        except SubErr as e:
+          logs[t].append((k, 'caught', e.tag)); r = -1
+        if r is None: r = -2
+      if 'a' in ops[k]:
+        got = yield R.DummyOp(200 + k)
+        logs[t].append((k, 'op', got))
+      if beh[t][k] == 0: yield val[t][k] + r
+      elif beh[t][k] == 1: raise SubErr((t, k))
+    return R.task_function(f)
+  class Top(R.BaseTask):
+    def __init__(self, t): R.BaseTask.__init__(self); self.t = t
+    def run(self):
+      t = self.t
+      try:
+        r = yield level(t, 0)()
+        logs[t].append(('top', 'got', r))
+      except SubErr as e:
+        logs[t].append(('top', 'caught', e.tag))
+      yield False
+  out = sys.stdout; sys.stdout = io.StringIO(); err = sys.stderr; sys.stderr = io.StringIO()
+  try:
+    for t in range(nt): Top(t).start(s)
+    drive(s, 200, fs)
+  finally:
+    sys.stdout = out; sys.stderr = err
+  # reference: plain nested calls
+  for t in range(nt):
+    ref = []
+    def call(k):
+      r = 0
+      if 'b' in ops[k]: ref.append((k, 'op', 100 + k))
+      if k + 1 < depth:
+        try:
+          r = call(k + 1); ref.append((k, 'got', r))
+        except SubErr as e:
+          ref.append((k, 'caught', e.tag)); r = -1
+        if r is None: r = -2
+      if 'a' in ops[k]: ref.append((k, 'op', 200 + k))
+      if beh[t][k] == 0: return val[t][k] + r
+      if beh[t][k] == 1: raise SubErr((t, k))
+      return None
+    try:
+      r = call(0); ref.append(('top', 'got', r))
+    except SubErr as e:
+      ref.append(('top', 'caught', e.tag))
+    got = logs[t]
+    ctx.check('task %d: number of call/return events' % t, len(got) == len(ref))
+    for a, b in zip(got, ref):
+      same = a[0] == b[0] and a[1] == b[1]
+      ctx.check('task %d: each result / exception reaches exactly its caller, in call order' % t, same and (a[2] is b[2] if (a[2] is None or b[2] is None) else ctx.Eq(a[2], b[2]) if not isinstance(b[2], tuple) else a[2] == b[2]))
+  ctx.witness('done')
+  if any(1 in b for b in beh): ctx.witness('raised')
+
+
 def obligations(tier):
   thorough = tier != 'quick'
   progs = []
@@ -213,10 +293,15 @@ def obligations(tier):
   for a, b in pairs: progs.append((singles[a], singles[b]))
   timers = [dict(recurring=False, cancel_after='never'), dict(recurring=False, cancel_after='cancel_before'), dict(recurring=True, cancel_after='never'),
             dict(recurring=True, cancel_after='return_false'), dict(recurring=True, cancel_after='cancel_at_3')]
-  BOUNDS[tier] = dict(task_programs=len(progs), yields_per_task="2..3 from %s" % KINDS, durations="1..5000 ms symbolic", clock_advance="symbolic per select call",
+  sub = [dict(depth=1, ops=['']), dict(depth=1, ops=['b']), dict(depth=2, ops=['', '']), dict(depth=2, ops=['b', 'a']), dict(depth=2, ops=['a', 'b']),
+         dict(depth=3, ops=['', 'b', '']), dict(depth=3, ops=['ba', '', 'b']), dict(depth=2, ops=['b', 'b'], siblings=True)]
+  if thorough: sub += [dict(depth=3, ops=['a', 'ba', 'a']), dict(depth=4, ops=['', 'b', 'a', '']), dict(depth=3, ops=['b', '', 'a'], siblings=True)]
+  BOUNDS[tier] = dict(subtask_chains=[(c['depth'], c['ops'], c.get('siblings', False)) for c in sub], task_programs=len(progs), yields_per_task="2..3 from %s" % KINDS, durations="1..5000 ms symbolic", clock_advance="symbolic per select call",
                       ready_sets="symbolic per select call (first 6 calls)", timers=[(t['recurring'], t['cancel_after']) for t in timers])
   return [
     Obligation('O1_tasks', h_tasks, [dict(prog=p) for p in progs], witnesses=('done',), max_decisions=20000, mode='int',
                desc='execution trace of task programs under symbolic time / readiness'),
     Obligation('O2_timers', h_timer, timers, witnesses=('done',), max_decisions=20000, mode='int', desc='one-shot / recurring / cancelled / self-stopping timers'),
+    Obligation('O3_subtasks', h_subtasks, sub, witnesses=('done', 'raised'), max_decisions=20000, mode='int',
+               desc='task_function / Again: nested sub-task calls behave like calls - result or exception reaches exactly the caller'),
   ]
